@@ -232,69 +232,84 @@ func C05(tier string) int {
 	classes := map[string]int{}
 	var mu sync.Mutex
 	var wg sync.WaitGroup
-	for admin := range c05AdminLists {
-		wg.Add(1)
-		go func(admin int) {
-			defer wg.Done()
-			r, err := rig.NewSignerRig(rig.SignerOpts{AdminIPs: c05AdminLists[admin]})
-			if err != nil {
-				results[admin].err = err
-				return
+	// Two passes: with logging off (every administrator list), and on instances that log at trace level (one IPv4 and one
+	// IPv6 list): what is refused must not depend on what is logged.
+	for pass := 0; pass < 2; pass++ {
+		tag := ""
+		if pass == 1 {
+			rig.Verbose(true)
+			tag = ":logging=trace"
+		}
+		for admin := range c05AdminLists {
+			if pass == 1 && admin != 1 && admin != 3 {
+				continue
 			}
-			defer r.Close()
-			ips := c05IPs(admin)
-			n := 0
-			for _, d := range domains {
-				for _, ep := range c05Endpoints {
-					for ipName, ip := range ips {
-						// The source address only bears on the exit type; elsewhere two representatives suffice.
-						if d[0] != 4 && ipName != "absent" && ipName != "listed-last" && ipName != "unlisted" {
-							continue
-						}
-						n++
-						if n%4000 == 0 {
-							// Bound the store size.
-							r.Close()
-							r, err = rig.NewSignerRig(rig.SignerOpts{AdminIPs: c05AdminLists[admin]})
+			wg.Add(1)
+			go func(admin int) {
+				defer wg.Done()
+				r, err := rig.NewSignerRig(rig.SignerOpts{AdminIPs: c05AdminLists[admin]})
+				if err != nil {
+					results[admin].err = err
+					return
+				}
+				defer r.Close()
+				ips := c05IPs(admin)
+				n := 0
+				for _, d := range domains {
+					for _, ep := range c05Endpoints {
+						for ipName, ip := range ips {
+							// The source address only bears on the exit type; elsewhere two representatives suffice.
+							if d[0] != 4 && ipName != "absent" && ipName != "listed-last" && ipName != "unlisted" {
+								continue
+							}
+							n++
+							if n%4000 == 0 {
+								// Bound the store size.
+								r.Close()
+								r, err = rig.NewSignerRig(rig.SignerOpts{AdminIPs: c05AdminLists[admin]})
+								if err != nil {
+									results[admin].err = err
+									return
+								}
+							}
+							signed, problem, err := c05Exec(r, d, ep, ip)
 							if err != nil {
 								results[admin].err = err
 								return
 							}
-						}
-						signed, problem, err := c05Exec(r, d, ep, ip)
-						if err != nil {
-							results[admin].err = err
-							return
-						}
-						allowed, why := c05Allowed(d, ep, admin, ip)
-						cell := C05Cell{Domain: fmt.Sprintf("%x", d), Endpoint: ep, Admin: admin, IP: ipName}
-						mu.Lock()
-						results[admin].cells++
-						if signed {
-							results[admin].signed++
-						} else {
-							results[admin].refused++
-						}
-						classes[fmt.Sprintf("%s|type=%x|allowed=%v|signed=%v", ep, d[:4], allowed, signed)]++
-						if results[admin].cells%1777 == 1 {
-							samples.Add(map[string]any{"cell": cell, "signed": signed, "allowed_by_truth_table": allowed})
-						}
-						mu.Unlock()
-						if signed && !allowed {
-							run.Violate(fmt.Sprintf("signed:%s:type=%x:admin=%d:ip=%s", ep, d[:4], admin, ipName),
-								fmt.Sprintf("%s produced a signature for domain %x (admin list %v, source %q): %s", ep, d, c05AdminLists[admin], ip, why),
-								map[string]any{"check": "C05", "cell": cell, "ip_value": ip})
-						}
-						if problem != "" && false {
-							run.Violate(fmt.Sprintf("problem:%s:type=%x:%s", ep, d[:4], firstWords(problem, 5)),
-								fmt.Sprintf("%s with domain %x: %s", ep, d, problem), map[string]any{"check": "C05", "cell": cell, "ip_value": ip})
+							allowed, why := c05Allowed(d, ep, admin, ip)
+							cell := C05Cell{Domain: fmt.Sprintf("%x", d), Endpoint: ep, Admin: admin, IP: ipName}
+							mu.Lock()
+							results[admin].cells++
+							if signed {
+								results[admin].signed++
+							} else {
+								results[admin].refused++
+							}
+							classes[fmt.Sprintf("%s|type=%x|allowed=%v|signed=%v", ep, d[:4], allowed, signed)]++
+							if results[admin].cells%1777 == 1 {
+								samples.Add(map[string]any{"cell": cell, "signed": signed, "allowed_by_truth_table": allowed})
+							}
+							mu.Unlock()
+							if signed && !allowed {
+								run.Violate(fmt.Sprintf("signed:%s:type=%x:admin=%d:ip=%s%s", ep, d[:4], admin, ipName, tag),
+									fmt.Sprintf("%s produced a signature for domain %x (admin list %v, source %q): %s", ep, d, c05AdminLists[admin], ip, why),
+									map[string]any{"check": "C05", "cell": cell, "ip_value": ip})
+							}
+							if problem != "" && false {
+								run.Violate(fmt.Sprintf("problem:%s:type=%x:%s%s", ep, d[:4], firstWords(problem, 5), tag),
+									fmt.Sprintf("%s with domain %x: %s", ep, d, problem), map[string]any{"check": "C05", "cell": cell, "ip_value": ip})
+							}
 						}
 					}
 				}
-			}
-		}(admin)
+			}(admin)
+		}
+		wg.Wait()
+		if pass == 1 {
+			rig.Verbose(false)
+		}
 	}
-	wg.Wait()
 	cells, signed, refused := 0, 0, 0
 	for _, r := range results {
 		if r.err != nil {
@@ -308,7 +323,7 @@ func C05(tier string) int {
 	run.Coverage = map[string]any{
 		"evaluations":         cells,
 		"distinct_nontrivial": len(classes),
-		"rule":                "full grid: domain = (first byte x 3 following bytes in {000000,000001,010000,ffffff} x 3 suffix fills) x 13 endpoint positions (incl. the generic endpoint with the data/domain boundary moved to byte 0, 1, 28, 31, 33) x 3 administrator lists x source addresses (absent, unlisted, listed first/last, proper prefix of a listed address, listed address with a suffix; all of them for the exit type, three representatives elsewhere); each cell executed on the real signer stack with fresh accounts; oracle = truth table from the property text, where a signature valid for the domain under test counts as released wherever in the response it appears; distinct = (endpoint, 4-byte type, allowed, signed) classes observed",
+		"rule":                "full grid: domain = (first byte x 3 following bytes in {000000,000001,010000,ffffff} x 3 suffix fills) x 13 endpoint positions (incl. the generic endpoint with the data/domain boundary moved to byte 0, 1, 28, 31, 33) x 3 administrator lists x source addresses (absent, unlisted, listed first/last, proper prefix of a listed address, listed address with a suffix; all of them for the exit type, three representatives elsewhere); each cell executed on the real signer stack with fresh accounts, with logging off and, for two of the administrator lists, once more on instances that log at trace level; oracle = truth table from the property text, where a signature valid for the domain under test counts as released wherever in the response it appears; distinct = (endpoint, 4-byte type, allowed, signed) classes observed",
 		"samples":             samples.List(),
 		"exhaustive":          true,
 		"grid":                map[string]any{"domains": len(domains), "first_bytes": len(b0s), "endpoints": len(c05Endpoints), "admin_lists": len(c05AdminLists)},
